@@ -6,16 +6,16 @@ import os
 V = os.path.dirname(os.path.dirname(os.path.abspath(__file__)))
 
 T = {
-    "C01": ("fault_enumeration", "4/C01", "enumerated reply faults vs reference accessory (Hypothesis + exhaustive bit flips)",
+    "C01": ("fault_enumeration", "4/C01", "enumerated and generated reply faults vs a reference accessory (exhaustive bit flips, recorded-handshake replay between two real exchanges, truncated replies), also through the simulated IP/BLE/CoAP transports",
             "The real get_session_keys generator and the three transports' verify drivers are run against a reference accessory written from the HAP text; every single-bit flip of M2 and an enumerated family of structural/key/identifier/transcript/replay faults must end in an exception, honest runs must be accepted by the reference and yield HKDF outputs equal to the reference's.",
             "Trusts `cryptography` primitives and the reference peer in vlib/refhap.py; arbitrary adversaries beyond the enumerated fault families are not covered."),
-    "C02": ("exploration", "4/C02", "differential vs independent SRP-6a integer arithmetic, directed leading-zero mining",
+    "C02": ("exploration", "4/C02", "differential vs independent SRP-6a integer arithmetic, directed leading-zero mining; mined exchanges run as complete pair-setups against a reference accessory",
             "SrpClient outputs are compared byte-for-byte with Python-integer SRP-6a written from RFC 5054/HAP for generated codes, salts and secrets, with seeds stepped until A, B, S, K, M1 or M2 start with 0x00; all 512 single-bit flips of M2 must be rejected.",
             "Reference arithmetic in vlib/refhap.py (k computed, not copied); SHA-512 from hashlib."),
-    "C03": ("fault_enumeration", "4/C03", "enumerated M2/M4/M6 faults vs reference pair-setup accessory",
+    "C03": ("fault_enumeration", "4/C03", "enumerated and generated M2/M4/M6 faults vs a reference pair-setup accessory, at generator level and end to end through the Discovery classes on simulated IP/BLE/CoAP transports",
             "perform_pair_setup_part1/2 run against a reference accessory; proof-breaking faults must raise and return nothing, honest runs must be accepted (M3 proof, M5 signature) by the reference and return a self-consistent record.",
             "Trusts `cryptography` primitives and the reference accessory."),
-    "C04": ("fault_enumeration", "4/C04", "exhaustive decision table over step x state x error x field subsets",
+    "C04": ("fault_enumeration", "4/C04", "exhaustive decision table over step x state encoding x error x field subsets; add/remove-pairing and pair-verify cells through the simulated IP (HTTP status / content-type variants) and BLE transports",
             "Every cell of the finite table is executed against the real protocol generators / add- and remove-pairing calls and compared with the documented exception class; control cells must succeed.",
             "Fields not defined for a step are placed after State/Error (the suite pins the filter as stop-at-first-unexpected)."),
     "C05": ("exploration", "4/C05", "reference framer/deframer differential, exhaustive 1- and 2-cut segmentations, bit flips",
@@ -27,7 +27,7 @@ T = {
     "C07": ("exploration", "4/C07", "metamorphic segmentation invariance + generated message list as reference",
             "Generated HTTP/EVENT sequences are fed through the real feed loop under every single and double cut (small streams) and random multi-cuts; delivered messages must equal the generated list.",
             "Only well-formed messages are generated (no chunk extensions/trailers)."),
-    "C08": ("exploration", "4/C08", "schedule exploration on a virtual-time loop with tagged responses (DFS + Hypothesis)",
+    "C08": ("exploration", "4/C08", "schedule exploration on a virtual-time loop with tagged responses (bounded DFS + Hypothesis histories), incl. a peer that stops reading (write-buffer model checked against real TCP)",
             "Interleavings of requests, partial responses, events, cancels, timeouts, FIN/reset are executed on the real connection; each caller must get its own tagged response or a disconnection error, promptly.",
             "Event-loop-callback granularity on an in-memory network."),
     "C09": ("exploration", "4/C09", "strict independent request parser over generated API calls",
@@ -39,7 +39,7 @@ T = {
     "C11": ("fault_enumeration", "4/C11", "open-connection count on the simulated accessory after every step",
             "Histories of failed/successful secure setups, retries, peer closes of old and new connections and close() are executed; the accessory-side set of connections not closed by the controller must stay <= 1 and reach 0 after close.",
             "In-memory network; close() of an idle loop is observed after running to idle."),
-    "C12": ("exploration", "4/C12", "model-based histories (Hypothesis op lists) vs subscription/listener model",
+    "C12": ("exploration", "4/C12", "model-based histories (Hypothesis op lists) vs subscription/listener model on the simulated IP transport; generated CoAP event notifications",
             "Subscribe/unsubscribe/listener/drop/reconnect/event-burst histories run against the simulated accessory; registry on the accessory and per-listener call logs are compared with the model.",
             "Polling fallback exemption as written in the statement."),
     "C13": ("exploration", "4/C13", "decision table over status vectors (exhaustive n<=3) on IP, CoAP and BLE fakes",
